@@ -590,7 +590,7 @@ func init() {
 		}
 		h := &histRun{c: &c, file: filepath.Join(tmp, "f.h5"), ds: map[string]*hdf5.DatasetWriter{},
 			grp: map[string]*hdf5.GroupWriter{}, dtypeOf: map[string]string{}, strsize: map[string]uint32{}}
-		var results []opResult
+		results := []opResult{}
 		type snap struct {
 			After int      `json:"after"`
 			Dump  fileDump `json:"dump"`
